@@ -133,12 +133,21 @@ Theorem C17_nm_perc_only_failure_is_KeyError :
   nm_perc X Z xi zeta transmission g = Err e -> e = KeyErr.
 Proof. exact nm_perc_err. Qed.
 
-(* directed_percolate_network (expovariate rules), whatever is drawn: G's nodes and
-   only arcs of G.  PARTIAL: the full statement is "u->v iff the delay drawn for
-   (u,v) is <= the duration drawn for u"; here only the shape is proved, the
-   equivalence with the drawn values is carried by the correspondence check (DPN
-   cases), because the draws of unfired arcs are not observable in the output. *)
-Theorem C17_directed_percolate_network_shape_partial :
+(* directed_percolate_network (expovariate rules).  For ALL values the calls to
+   expovariate may return, presented as rules dur / delay (a drawn number exactly when
+   the rate is positive, otherwise Inf: the boolean predicate [drawn]): run on those
+   draws, in the order of the calls, the function returns what the timing builder
+   returns for these rules -- hence (C17_nm_perc_timing_spec) G's nodes and u->v iff
+   the delay drawn for (u,v) is <= the duration drawn for u. *)
+Theorem C17_directed_percolate_network_is_timing_builder :
+  forall (dur : node -> xtime) (delay : node -> node -> xtime) tau gamma g w,
+  (forall u, In u (gnodes g) -> drawn gamma (dur u) = true /\ forall v, In v (gadj g u) -> drawn tau (delay u v) = true) ->
+  exists tr', exec (directed_percolate_network g tau gamma w) (outer_draws dur delay g (gnodes g)) []
+              = (Ok (nm_perc_timing dur delay g w), tr').
+Proof. exact directed_percolate_network_spec. Qed.
+
+(* and whatever list of draws is supplied: G's nodes and only arcs of G *)
+Theorem C17_directed_percolate_network_shape :
   forall g tau gamma w, wf_graphb g = true ->
   forall ds tr h tr', exec (directed_percolate_network g tau gamma w) ds tr = (Ok h, tr') ->
   NoDup (pg_nodes h) /\ (forall x, In x (pg_nodes h) <-> In x (gnodes g)) /\
@@ -170,7 +179,11 @@ Definition ex_path : graph := graph_of [0;1;2]%N [(0,1);(1,2)]%N false.
 Example C17_ex_builder :
   wf_graphb ex_path = true /\
   pg_edges (nm_perc_timing (fun _ => Some 1) (fun u v => if N.ltb u v then Some (1 # 2) else Some 2) ex_path true) = [(0,1);(1,2)]%N /\
-  estimate_SIR_prob_size ex_path (1 # 2) [1 # 4; 3 # 4] = Ok (2 # 3, 2 # 3).
+  estimate_SIR_prob_size ex_path (1 # 2) [1 # 4; 3 # 4] = Ok (2 # 3, 2 # 3) /\
+  (* tau = 1, gamma = 0: durations are Inf, every arc is kept *)
+  forallb (fun u => drawn 0 None && forallb (fun v => drawn 1 (Some (1 # 2))) (gadj ex_path u)) (gnodes ex_path) = true /\
+  fst (exec (directed_percolate_network ex_path 1 0 false) [1 # 2; 1 # 2; 1 # 2; 1 # 2] []) =
+    Ok (nm_perc_timing (fun _ => None) (fun _ _ => Some (1 # 2)) ex_path false).
 Proof. vm_compute. repeat split. Qed.
 
 Print Assumptions C17_out_comp_spec.
@@ -189,7 +202,8 @@ Print Assumptions C17_nm_perc_timing_calls.
 Print Assumptions C17_nm_perc_spec.
 Print Assumptions C17_nm_perc_succeeds.
 Print Assumptions C17_nm_perc_only_failure_is_KeyError.
-Print Assumptions C17_directed_percolate_network_shape_partial.
+Print Assumptions C17_directed_percolate_network_is_timing_builder.
+Print Assumptions C17_directed_percolate_network_shape.
 Print Assumptions C17_ex_wf.
 Print Assumptions C17_ex_two_answers.
 Print Assumptions C17_ex_mutual.
